@@ -246,7 +246,8 @@ Proof. exact section_roundtrip_blanks. Qed.
    of the sections of the in-memory file AFTER the call (ifmt is the numeric format of the index
    column, with which STRT/STOP/STEP are printed) — i.e. after STRT/STOP/STEP refresh,
    unit alignment and standardize_value, the documented differences — for ~Version of the
-   copy in which VERS was substituted; the ~Other text written is the unchanged text *)
+   copy in which DLM was set to SPACE and VERS was substituted (hs_vers_items); the ~Other text
+   written is the unchanged text *)
 Theorem C03_written_sections_read_back :
   forall fmtv fmt_diff fstr fzero numeq ver wrapo ifmt m hs c ie cc tr,
   write_sections fmtv fmt_diff fstr fzero numeq ver wrapo ifmt m = Some hs ->
@@ -840,6 +841,59 @@ Proof.
   apply Hread. reflexivity.
 Qed.
 
+(* ---- C12 at file level: 1.2 and 2.0 renderings of the same object read back alike ------------ *)
+(* The same object written with version=1.2 and with version=2.0, all other options equal
+   (set_wversion), both inside the file-level domain: the two texts (whose ~Well lines differ:
+   value and description change places) are read back with the same ~Well / ~Curves / ~Parameter
+   metadata, ~Other text and data — each text being parsed with the version the reader derives
+   from its own VERS line.  (NULL named at most once, so that both reads hold the same NULL.) *)
+Require Import FileRoundTripVersion.
+Theorem C03_file_version_independent :
+  forall fmtv fmt_diff fmt_pi fstr fzero numeq fhex ro o m v1 v2 t1 m1 t2 m2 hs1 hs2 dl1 dl2 rts1 rts2 nt,
+  let o1 := set_wversion o (Some v1) in
+  let o2 := set_wversion o (Some v2) in
+  write fmtv fmt_diff fmt_pi fstr fzero numeq o1 m = WOk t1 m1 ->
+  write fmtv fmt_diff fmt_pi fstr fzero numeq o2 m = WOk t2 m2 ->
+  write_sections fmtv fmt_diff fstr fzero numeq (Some v1) (wo_wrap o) (col_fmt o 0%nat) m = Some hs1 ->
+  write_sections fmtv fmt_diff fstr fzero numeq (Some v2) (wo_wrap o) (col_fmt o 0%nat) m = Some hs2 ->
+  dsh_of fmtv fmt_pi fstr o1 hs1 = Some dl1 -> dsh_of fmtv fmt_pi fstr o2 hs2 = Some dl2 ->
+  las_null_text fstr (hs_las hs1) = Some nt ->
+  opt_all (map (row_text fmtv fmt_pi o1 (Some nt) 0%nat) (las_rows (hs_las hs1))) = Some rts1 ->
+  opt_all (map (row_text fmtv fmt_pi o2 (Some nt) 0%nat) (las_rows (hs_las hs2))) = Some rts2 ->
+  file_hypsb fmtv fmt_pi fstr fhex ro o1 hs1 nt = true -> file_hypsb fmtv fmt_pi fstr fhex ro o2 hs2 nt = true ->
+  (List.length (filter (in_class (o_mcase ro) (s2l "NULL")) (s_items (l_well (hs_las hs1)))) <= 1)%nat ->
+  o_ignore_data ro = false ->
+  exists l1 l2,
+    read fhex fstr numeq ro t1 = ROk l1 /\ read fhex fstr numeq ro t2 = ROk l2 /\
+    map meta (s_items (l_well l1)) = map meta (s_items (l_well l2)) /\
+    map meta (s_items (l_curves l1)) = map meta (s_items (l_curves l2)) /\
+    map meta (s_items (l_params l1)) = map meta (s_items (l_params l2)) /\
+    l_other l1 = l_other l2 /\ l_custom l1 = l_custom l2 /\ l_data l1 = l_data l2.
+Proof. exact file_version_independent. Qed.
+
+Theorem C03_set_wversion_unfold : forall o v,
+  set_wversion o v =
+  mkwopts v (wo_wrap o) (wo_fmt o) (wo_column_fmt o) (wo_len_numeric_field o) (wo_lhs_spacer o) (wo_spacer o)
+          (wo_data_width o) (wo_header_width o) (wo_data_section_header o) (wo_mnemonics_header o).
+Proof. reflexivity. Qed.
+
+(* computed on ex_m: the two texts differ in ~Well, the two reads agree *)
+Definition fx_text_v (v : wver) : list N :=
+  match write fx_fmtv fx_fmt_diff fx_fmt_pi ex_fstr fx_fzero fx_numeq (set_wversion fx_o (Some v)) ex_m with
+  | WOk t _ => t | WErr _ => [] end.
+Example C03_ex_file_versions :
+  fx_text_v W12 <> fx_text_v W20 /\
+  match read fx_fhex ex_fstr fx_numeq (fx_ro CasePreserve false) (fx_text_v W12),
+        read fx_fhex ex_fstr fx_numeq (fx_ro CasePreserve false) (fx_text_v W20) with
+  | ROk l1, ROk l2 =>
+      map meta (s_items (l_well l1)) = map meta (s_items (l_well l2)) /\
+      map meta (s_items (l_curves l1)) = map meta (s_items (l_curves l2)) /\
+      map meta (s_items (l_params l1)) = map meta (s_items (l_params l2)) /\
+      l_data l1 = l_data l2 /\ l_data l1 = [[CNum (s2l "1.0"); CNum (s2l "2.0")]; [CNum (s2l "5"); CNaN]]
+  | _, _ => False
+  end.
+Proof. split; [vm_compute; discriminate|vm_compute; repeat split; reflexivity]. Qed.
+
 Print Assumptions C03_written_text_lines.
 Print Assumptions C03_written_blocks_unfold.
 Print Assumptions C03_written_blocks_wf.
@@ -860,3 +914,5 @@ Print Assumptions C03_header_read_back_unfold.
 Print Assumptions C03_null_read_unfold.
 Print Assumptions C03_wrap_ok_unfold.
 Print Assumptions C03_file_hypsb_ok.
+Print Assumptions C03_file_version_independent.
+Print Assumptions C03_set_wversion_unfold.
